@@ -329,14 +329,13 @@ class Gen:
             return ("fn", "every", [("hdr", r.choice(STRH + NUMH)), ("int", r.choice([2, 3]))], q)
         if f == "subtotal":
             return ("fn", "subtotal", [("hdr", r.choice(STRH)), ("hdr", r.choice(NUMH))], [self.fresh("sb")] + q)
+        if f in ("pop", "stackops") and (not self.stacks or r.random() < 0.2):
+            # reading a stack before anything was pushed to it (a later component may push to it)
+            self.stacks.append(self.fresh("st"))
         if f == "pop":
-            if not self.stacks:
-                return self.aggregate(quals)
             name = self.fresh("n")
             return ("assign", name, None, q, ("fn", "pop", [("str", r.choice(self.stacks))], []))
         if f == "stackops":
-            if not self.stacks:
-                return self.aggregate(quals)
             name = self.fresh("n")
             g = r.choice(["peek", "peek_size"])
             a = [("str", r.choice(self.stacks))] + ([("int", r.choice([0, 1, 2]))] if g == "peek" else [])
